@@ -428,11 +428,17 @@ namespace bluetoe {
 
             static details::attribute_access_result access( attribute_access_arguments& args, std::size_t )
             {
-                static constexpr std::uint8_t value[] = {
-                    handles::service_attribute_handle & 0xff,
-                    handles::service_attribute_handle >> 8,
-                    handles::end_service_handle & 0xff,
-                    handles::end_service_handle >> 8,
+                // service_handles<> numbers all attributes consecutively, starting with 1. This is the attribute index + 1;
+                // the handles might be different, if attribute_handle<> or attribute_handles<> are used.
+                using mapping = interate_service_index_mappings< 1u, 0u, service_list >;
+                const std::uint16_t first_handle = mapping::service_handle_by_index( handles::service_attribute_handle - 1 );
+                const std::uint16_t last_handle  = mapping::service_handle_by_index( handles::end_service_handle - 1 );
+
+                const std::uint8_t value[] = {
+                    static_cast< std::uint8_t >( first_handle & 0xff ),
+                    static_cast< std::uint8_t >( first_handle >> 8 ),
+                    static_cast< std::uint8_t >( last_handle & 0xff ),
+                    static_cast< std::uint8_t >( last_handle >> 8 ),
                     UUID & 0xff,
                     UUID >> 8
                 };
@@ -481,11 +487,16 @@ namespace bluetoe {
 
             static details::attribute_access_result access( attribute_access_arguments& args, std::size_t )
             {
-                static constexpr std::uint8_t value[] = {
-                    handles::service_attribute_handle & 0xff,
-                    handles::service_attribute_handle >> 8,
-                    handles::end_service_handle & 0xff,
-                    handles::end_service_handle >> 8,
+                // see include_service< service_uuid16< UUID > >
+                using mapping = interate_service_index_mappings< 1u, 0u, service_list >;
+                const std::uint16_t first_handle = mapping::service_handle_by_index( handles::service_attribute_handle - 1 );
+                const std::uint16_t last_handle  = mapping::service_handle_by_index( handles::end_service_handle - 1 );
+
+                const std::uint8_t value[] = {
+                    static_cast< std::uint8_t >( first_handle & 0xff ),
+                    static_cast< std::uint8_t >( first_handle >> 8 ),
+                    static_cast< std::uint8_t >( last_handle & 0xff ),
+                    static_cast< std::uint8_t >( last_handle >> 8 )
                 };
 
                 return attribute_value_read_only_access( args, &value[ 0 ], sizeof( value ) );
